@@ -183,6 +183,8 @@ def bounded(b):
                 if (lo_p >= 33 if sgn == -1 else lo_p >= 0) and any(r[2] > 0 for r in rows):
                     up = estimate_key(_na([(p + 12 * sgn, o, d) for (p, o, d) in rows], unit), key_profiles=prof)
                     sc2 = estimate_key(_na([(p, o, d * 3) for (p, o, d) in rows], unit), key_profiles=prof)
+                    sc3 = estimate_key(_na([(p, o * 0.001, d * 0.001) for (p, o, d) in rows], unit), key_profiles=prof)
+                    sc4 = estimate_key(_na([(p, o * 0.01, d * 0.01) for (p, o, d) in rows], unit), key_profiles=prof)
                     eq = []
                     for k in (1 * sgn, 5 * sgn, 7 * sgn):
                         kk = estimate_key(_na([(p + k, o, d) for (p, o, d) in rows], unit), key_profiles=prof)
@@ -192,7 +194,8 @@ def bounded(b):
                     if margin is not None and margin < 1e-6:
                         b.ties += 1
                     else:
-                        b.case("key/unaffected_by_octave_shift_and_duration_scale", up == key and sc2 == key, kcase, "key %r, octave up %r, durations x3 %r" % (key, up, sc2), nontrivial=nontriv)
+                        b.case("key/unaffected_by_octave_shift_and_duration_scale", up == key and sc2 == key and (margin is None or margin < 1e-3 or (sc3 == key and sc4 == key)), kcase,
+                               "key %r, octave shifted %r, durations x3 %r, x0.001 %r, x0.01 %r" % (key, up, sc2, sc3, sc4), nontrivial=nontriv)
                         b.case("key/transposing_by_k_semitones_transposes_the_tonic", all(eq), kcase, "equivariance fails for k in (1,5,7): %r" % eq, nontrivial=nontriv)
     _midi_import(b)
 
